@@ -69,7 +69,7 @@ theorem complex_rt (name : List Char) (strands : List (List Char)) (db : List Ch
         ['c', 'o', 'm', 'p', 'l', 'e', 'x'] ++ Pil.complexText (a + 1) nc m b sign d ds dbc dbm := by
       rw [k, spaced_eq]; simp [blanks, Pil.complexText, List.append_assoc]
     rw [htext]
-    exact Pil.complex_parse (a + 1) nc m b sign hs d ds dbc dbm hnc hm (domName_isDom d (hst2 d (by simp)))
+    exact Pil.complex_parse (a + 1) (Nat.succ_pos a) nc m b sign hs d ds dbc dbm hnc hm (domName_isDom d (hst2 d (by simp)))
       (fun x hx => domName_isDom x (hst2 x (List.mem_cons_of_mem _ hx))) hdbc hdbm
 
 /-- **strand-notation complexes, `structure` form** (strands separated by `+`, which the grammar drops) -/
@@ -91,7 +91,7 @@ theorem structure_rt (name : List Char) (strands : List (List Char)) (db : List 
         ['s', 't', 'r', 'u', 'c', 't', 'u', 'r', 'e'] ++ Pil.structText (a + 1) nc m s1 d ds s2 dbc dbm := by
       rw [k, plusSep_eq]; simp [blanks, Pil.structText, List.append_assoc]
     rw [htext]
-    exact Pil.struct_parse (a + 1) nc m s1 s2 hs1 hs2 d ds dbc dbm hnc hm (domName_isDom d (hst2 d (by simp)))
+    exact Pil.struct_parse (a + 1) (Nat.succ_pos a) nc m s1 s2 hs1 hs2 d ds dbc dbm hnc hm (domName_isDom d (hst2 d (by simp)))
       (fun x hx => domName_isDom x (hst2 x (List.mem_cons_of_mem _ hx))) hdbc hdbm
 
 
@@ -192,10 +192,10 @@ theorem reaction_info_rt (ty rate : List Char) (cunits : List (List Char)) (tu :
       rw [this]
       simp [tokOf, Pil.cuText, List.append_assoc]
 
-/-- **kernel complexes with a concentration** -/
+/-- **kernel complexes with a concentration** (every identifier `name`, as in `kernel_rt`) -/
 theorem kernel_conc_rt (name : List Char) (seq : List String) (sst : List Char) (toks : List Tree)
     (mode value unit : List Char)
-    (hn : Ident name) (hk : NoKeywordPrefix name) (hl : LegalNames seq sst) (hne : sst ≠ [])
+    (hn : Ident name) (hl : LegalNames seq sst) (hne : sst ≠ [])
     (ht : kernelTokens seq sst = some toks)
     (hm : mode = "initial".toList ∨ mode = "i".toList ∨ mode = "constant".toList ∨ mode = "c".toList)
     (hv : Digits value)
@@ -219,15 +219,15 @@ theorem kernel_conc_rt (name : List Char) (seq : List String) (sst : List Char) 
     have e5 : "pM".toList = ['p', 'M'] := rfl
     rw [e1, e2, e3, e4, e5] at hu
     exact hu
-  obtain ⟨nc, m, rfl, hnc, hm', hkw, hL, hleg, hp, htext⟩ :=
-    kernel_prep name seq sst toks hn hk hl hne ht (Pil.concText mode vc vm unit)
+  obtain ⟨nc, m, rfl, hnc, hm', hL, hleg, hp, htext⟩ :=
+    kernel_prep name seq sst toks hn hl hne ht (Pil.concText mode vc vm unit)
   have k : " @".toList = [' ', '@'] := rfl
   have hre : (nc :: m) ++ " = ".toList ++ (kernelString seq sst).toList ++ " @".toList ++ mode ++ [' '] ++ (vc :: vm) ++
       [' '] ++ unit ++ ['\n'] =
       (nc :: m) ++ " = ".toList ++ (kernelString seq sst).toList ++ Pil.concText mode vc vm unit := by
     rw [k]; simp [Pil.concText, List.append_assoc]
   rw [hre, htext]
-  exact Pil.kernel_conc_parse nc m _ toks mode vc vm unit hnc hm' hkw hL hleg hp hmode hvc hvm hunit
+  exact Pil.kernel_conc_parse nc m _ toks mode vc vm unit hnc hm' hL hleg hp hmode hvc hvm hunit
 
 /-- **a document parses as the concatenation of its statements** (two domain-length statements separated by
     any number of blank lines) -/
